@@ -227,6 +227,10 @@ pub fn gen_members(rng: &mut Rng, hostile: bool) -> Vec<(String, u64)> {
         let d = rng.pick(&v).clone();
         v.push(d); // the same entry twice, verbatim
     }
+    if hostile && rng.chance(1, 6) && !v.is_empty() {
+        let d = rng.pick(&v).clone();
+        v.push((d.0.to_uppercase(), gen_weight(rng))); // the same account in another spelling
+    }
     v
 }
 
